@@ -109,6 +109,8 @@ fn meter_reset() {
 pub struct Outcome {
     /// "Ok:<debug of value>" | "Err:<kind name>" | "Panic:<message>"
     pub res: String,
+    /// like `res`, an error with the payload of its kind (what C19 compares between the two builds)
+    pub full: String,
     /// reader position after the call, or None if the accessor itself panicked
     pub pos: Option<usize>,
     pub len_after: Option<usize>,
@@ -121,11 +123,12 @@ pub fn decode(e: &Entry, bytes: &[u8], bit_len: usize) -> Outcome {
     meter_reset();
     let bits = Bits::from((bytes, bit_len));
     let mut r = UperReader::from(bits);
-    let res = match catch(|| e.ops.uper_read_debug(&mut r)) {
-        Ok(Ok(s)) => format!("Ok:{s}"),
-        Ok(Err((kind, _))) => format!("Err:{kind}"),
-        Err(p) => format!("Panic:{p}"),
+    let (res, full) = match catch(|| e.ops.uper_read_debug(&mut r)) {
+        Ok(Ok(s)) => (format!("Ok:{s}"), None),
+        Ok(Err((kind, full))) => (format!("Err:{kind}"), Some(format!("Err:{full}"))),
+        Err(p) => (format!("Panic:{p}"), None),
     };
+    let full = full.unwrap_or_else(|| res.clone());
     let largest = LARGEST.load(Ordering::Relaxed);
     let peak = PEAK.load(Ordering::Relaxed).saturating_sub(base);
     // accessors must stay callable after a failed read
@@ -135,7 +138,7 @@ pub fn decode(e: &Entry, bytes: &[u8], bit_len: usize) -> Outcome {
         Ok((p, l)) if rem.is_ok() => (Some(p), Some(l)),
         _ => (None, None),
     };
-    Outcome { res, pos, len_after, largest_alloc: largest, peak_extra: peak }
+    Outcome { res, full, pos, len_after, largest_alloc: largest, peak_extra: peak }
 }
 
 // ---- the input space ---------------------------------------------------------------------------
@@ -146,6 +149,8 @@ pub enum Block {
     AllStrings { ty: usize, l: usize },
     /// every single fault (and, thorough, pairs of faults) on one valid seed encoding
     Faults { ty: usize, seed: Vec<bool>, depth: usize },
+    /// valid encodings (written by the real writer) of the larger values of the type, unchanged
+    Valid { ty: usize, encodings: Vec<Vec<bool>> },
 }
 
 pub struct Space {
@@ -295,12 +300,40 @@ impl Space {
                 blocks.push(Block::Faults { ty: t, seed: s, depth });
             }
         }
+        // the valid encodings of the values of a larger budget, as they are (long strings and lists, fragmented
+        // lengths): no fault, but still "every input" of C04 and C19
+        for &t in &types {
+            let e = &reg[t];
+            let m = &zoo[e.module_index].module;
+            let d = m.find(e.def).unwrap();
+            let b = if thorough { Budget::quick().with_max_size(17000) } else { Budget::quick().with_max_size(1100) };
+            let b = Budget { large_sizes: &[], ..b };
+            let mut encs: Vec<Vec<bool>> = vec![];
+            for v in values::values(m, &d.ty, &b) {
+                if !matches!(catch(|| e.ops.reflect(&v)), Ok(r) if r == v.normalize()) {
+                    continue;
+                }
+                let enc = catch(|| {
+                    let mut w = asn1rs::rw::UperWriter::default();
+                    e.ops.uper_write(&mut w, &v).map(|_| unpack_n(w.byte_content(), w.bit_len()))
+                });
+                if let Ok(Ok(bits)) = enc {
+                    if bits.len() > 400 {
+                        encs.push(bits);
+                    }
+                }
+            }
+            for chunk in encs.chunks(32) {
+                blocks.push(Block::Valid { ty: t, encodings: chunk.to_vec() });
+            }
+        }
         Space { reg, types, blocks, zoo }
     }
 
     pub fn inputs(&self, b: &Block) -> Vec<Input> {
         match b {
             Block::AllStrings { l, .. } => (0..(1u32 << l)).map(|x| Input { bits: (0..*l).map(|i| (x >> (l - 1 - i)) & 1 == 1).collect(), how: "all-strings".into() }).collect(),
+            Block::Valid { encodings, .. } => encodings.iter().map(|b| Input { bits: b.clone(), how: "valid-encoding".into() }).collect(),
             Block::Faults { seed, depth, .. } => {
                 let mut one = faults_of(seed);
                 if *depth >= 2 {
@@ -323,7 +356,7 @@ impl Space {
 
     pub fn entry_of(&self, b: &Block) -> &Entry {
         match b {
-            Block::AllStrings { ty, .. } | Block::Faults { ty, .. } => &self.reg[*ty],
+            Block::AllStrings { ty, .. } | Block::Faults { ty, .. } | Block::Valid { ty, .. } => &self.reg[*ty],
         }
     }
 }
@@ -406,7 +439,7 @@ pub fn check_input(space: &Space, e: &Entry, input: &Input, fails: &mut BTreeMap
     if o.largest_alloc > (256 << 20) || o.peak_extra > (64 << 20) + 4096 * bytes {
         add(format!("allocation-not-bounded-by-input.{kind}"), format!("largest request <= 256 MiB, peak <= 64 MiB + 4096 x {bytes} input bytes"), format!("largest request {} bytes, peak {} bytes", o.largest_alloc, o.peak_extra));
     }
-    format!("{}|{:?}", o.res, o.pos)
+    format!("{}|{:?}", o.full, o.pos)
 }
 
 fn fnv(h: &mut u64, s: &str) {
